@@ -11,6 +11,7 @@ from .. import treecheck
 from ..treeprop import DROP_ASC, DROP_DESC, GC_DROP, HOLD_ASC, HOLD_DESC, TreeProp
 
 QUICK = [
+    ("S4", DROP_ASC, 2, "RETYPE"),
     ("S4", DROP_ASC, 2, "DELCORE"),
     ("S7", DROP_ASC, 1, "DELCORE"),
     ("S1", DROP_ASC, 2, "FULL"),
@@ -21,6 +22,8 @@ QUICK = [
     ("S1r", DROP_ASC, 2, "STRUCT"),
 ]
 THOROUGH = [
+    ("S4", DROP_ASC, 3, "RETYPE"),
+    ("S4", HOLD_DESC, 3, "RETYPE"),
     ("S4", DROP_ASC, 2, "DELCORE"),
     ("S7", DROP_ASC, 2, "DELCORE"),
     ("S1", DROP_ASC, 3, "FULL"),
